@@ -427,6 +427,9 @@ def variants(repo):
         Variant("fill pass skips elements with at most one unknown", F,
                 sub("        for e,eNodes in enumerate(conns):\n            elDofs = self.ids[eNodes,:]\n", "        for e,eNodes in enumerate(conns):\n            if nElUnknowns[e] <= 1:\n                rangeBegin += onp.square(nElUnknowns[e])\n                continue\n            elDofs = self.ids[eNodes,:]\n"),
                 "O6/T6-hessian-coordinates-and-mask"),
+        Variant("bcIndices = row numbers of the constrained entries", F, sub("        self.bcIndices = self.ids[self.isBc]", "        self.bcIndices = onp.nonzero(self.isBc)[0]"), "O1-O3/T5-masks-ids-map"),
+        Variant("bcIndices through the index tuple of nonzero", F, sub("        self.bcIndices = self.ids[self.isBc]", "        self.bcIndices = self.ids[onp.nonzero(self.isBc)]"), None),
+        Variant("bcIndices by flatnonzero", F, sub("        self.bcIndices = self.ids[self.isBc]", "        self.bcIndices = onp.flatnonzero(self.isBc)"), None),
         # iteration hands out views: a store into the loop target clears the block of the array itself
         Variant("mask cleared through the per-element views", F, sub_in_func("DofManager._make_hessian_bc_mask",
                 "        for e, eNodes in enumerate(conns):\n            eFlag = self.isBc[eNodes,:].ravel()\n            hessian_bc_mask[e,eFlag,:] = False\n            hessian_bc_mask[e,:,eFlag] = False\n",
